@@ -73,6 +73,9 @@ type State struct {
 	StdinData string
 	StdinPos  int
 	StdinPipe bool
+	// StdinHang: a terminal nobody types on - a read beyond the script blocks (in virtual time) instead of
+	// reporting end of file
+	StdinHang bool
 	Visible   bool
 	Version   map[string]uint64
 	// ReadDelay makes every read(2) of a file whose name starts with
@@ -215,6 +218,9 @@ func (f *File) Name() string { return f.name }
 func (f *File) Read(p []byte) (int, error) {
 	if f.stdin {
 		if S.StdinPos >= len(S.StdinData) {
+			if S.StdinHang && vrt.W != nil {
+				vrt.Sleep("stdin-nobody-types", 1000*time.Hour)
+			}
 			return 0, io.EOF
 		}
 		n := copy(p, S.StdinData[S.StdinPos:])
